@@ -97,6 +97,9 @@ func cmdCheck(args []string) {
 	if s := os.Getenv("VERIF_SEED"); s != "" {
 		seed, _ = strconv.Atoi(s)
 	}
+	if os.Getenv("VERIF_NOEVIDENCE") != "" {
+		*noEvidence = true
+	}
 	os.Exit(runCheck(*prop, *tier, *repo, *verif, seed, !*noEvidence))
 }
 
